@@ -48,6 +48,8 @@ package witness
 //@   let cIncons  := counterInconsistentCheckpoints
 //@
 //@   requires w != nil && w.lsp != nil
+//@   modifies n_wo, wo_err, wo_h, n_gl, gl_err, gl_val, gl_h, n_set, set_err, set_arg, set_h, n_close, close_h, n_commit
+//@   modifies n_sign, sign_err, sign_out, sign_n, st_has, st_val, cnt
 //@   // the witness's own keys are not log keys (configuration precondition; needed for "a cosigned note still opens under the log key")
 //@   requires known ==> !signerKey(w.Signers, L.SigV)
 //@   requires cAttempt != nil && cSuccess != nil && cInvalid != nil && cIncons != nil
@@ -111,6 +113,7 @@ package witness
 //@   returns (out, err)
 //@   let S := w.lsp
 //@   requires w != nil && w.lsp != nil
+//@   modifies n_ro, ro_err, n_gl, gl_err, gl_val, gl_h
 //@   ensures[C04.g,C16.g] err == nil ==> st_has[S][logID] && out == st_val[S][logID]
 //@   ensures[C04.g,C16.g] st_has[S][logID] && !(n_ro == old(n_ro) + 1 && ro_err != nil) && !(n_gl == old(n_gl) + 1 && gl_err != nil) ==> err == nil
 //@   ensures[C16.n]  !st_has[S][logID] ==> err != nil && (!(n_ro == old(n_ro) + 1 && ro_err != nil) ==> code(err) == NotFound || code(gl_err) != NotFound) && out == nil
@@ -122,7 +125,40 @@ package witness
 //@   ensures[C02.w,C12.w] err != nil ==> w == nil
 
 //@ func initMetrics$1
+//@   modifies counterUpdateAttempt, counterUpdateSuccess, counterInvalidConsistency, counterInconsistentCheckpoints
 //@   // the four update counters are distinct, non-nil objects (precondition of Update's counter clauses)
 //@   ensures[C20.i] counterUpdateAttempt != nil && counterUpdateSuccess != nil && counterInvalidConsistency != nil && counterInconsistentCheckpoints != nil
 //@   ensures[C20.i] counterUpdateAttempt != counterUpdateSuccess && counterUpdateAttempt != counterInvalidConsistency && counterUpdateAttempt != counterInconsistentCheckpoints
 //@   ensures[C20.i] counterUpdateSuccess != counterInvalidConsistency && counterUpdateSuccess != counterInconsistentCheckpoints && counterInvalidConsistency != counterInconsistentCheckpoints
+
+// Update re-verified under the interference reading of the storage contract (C05): other threads may change
+// the store before every storage operation.  `govc -mode interference`.
+//@ func (*Witness).Update
+//@   opt mode=interference
+//@   returns (out, err)
+//@   let S        := w.lsp
+//@   let L        := old(w.Logs[logID])
+//@   let nS       := cpSize(text(nextRaw))
+//@   let nH       := cpHash(text(nextRaw))
+//@   let glCalled := n_gl == old(n_gl) + 1
+//@   let seenOK   := glCalled && gl_err == nil
+//@   let seenNone := glCalled && gl_err != nil && code(gl_err) == NotFound
+//@   let sS       := cpSize(text(gl_val))
+//@   let sH       := cpHash(text(gl_val))
+//@   let committed := n_set == old(n_set) + 1 && set_err == nil
+//@   requires w != nil && w.lsp != nil
+//@   modifies n_wo, wo_err, wo_h, n_gl, gl_err, gl_val, gl_h, n_set, set_err, set_arg, set_h, n_close, close_h, n_commit
+//@   modifies n_sign, sign_err, sign_out, sign_n, st_has, st_val, cnt, cm_has, cm_val
+//@   ensures[C05.u1] err == nil <==> committed
+//@   ensures[C05.u1] n_commit <= old(n_commit) + 1 && (err != nil ==> n_commit == old(n_commit))
+//@   // an update is never accepted on the strength of a state that was no longer current when it was stored
+//@   ensures[C05.u2] err == nil ==> seenOK || seenNone
+//@   ensures[C05.u2] err == nil && seenOK ==> cm_has[S][logID] && cm_val[S][logID] == gl_val
+//@   ensures[C05.u2] err == nil && seenNone ==> !cm_has[S][logID]
+//@   // ... and that state justifies the step: sizes never go down, equal size => equal root, growth => verified proof
+//@   ensures[C05.u3] err == nil && seenOK ==> parsesAs(gl_val, L.Origin, L.SigV) && sS <= nS && (sS == nS ==> str(sH) == str(nH))
+//@                   && (sS < nS ==> vc(L.Hasher, sS, nS, cProof, sH, nH))
+//@   // no accepted update is lost: the commit wrote exactly the bytes that are returned
+//@   ensures[C05.u4] err == nil ==> set_arg == out && out != nil
+//@   // a refusal hands out nothing but what the store held when it was read
+//@   ensures[C05.u5] err != nil ==> out == nil || (seenOK && out == gl_val)
